@@ -50,7 +50,9 @@ class World:
     """spec: {"wallet": [[name, Decimal]…], "vaults": [[id, {"coll","short","nft"}]…], "maxId", "positions":
     [[[lo,hi], {"liquidity","p0","p1","transferred"}]…]};
     env: {"rows": [[t, nf, weth, osqth]…], "now": int|None, "cur": [nf, weth, osqth] (used when now is None),
-          "uniPrice": Decimal, "uniOpen": bool}"""
+          "uniPrice": Decimal, "uniOpen": bool, "flip": bool (optional; True = the pool is UniV3Pool(osqth, weth, …): token0 is oSQTH,
+          ticks are those of WETH-per-oSQTH, i.e. negative around 0.1 — the model knows the mainnet orientation only, flipped worlds
+          are judged by the independent oracles)}"""
 
     def __init__(self, spec, env):
         _patch_twap()
@@ -61,7 +63,9 @@ class World:
         self.broker = m["Broker"]()
         self.uni_key = m["MarketInfo"]("Uni", m["MarketTypeEnum"].uniswap_v3)
         self.sq_key = m["MarketInfo"]("Squeeth", m["MarketTypeEnum"].squeeth)
-        self.uni = m["UniLpMarket"](self.uni_key, m["UniV3Pool"](self.weth, self.osqth, 0.3, self.weth))
+        self.flip = bool(env.get("flip", False))
+        pool = m["UniV3Pool"](self.osqth, self.weth, 0.3, self.weth) if self.flip else m["UniV3Pool"](self.weth, self.osqth, 0.3, self.weth)
+        self.uni = m["UniLpMarket"](self.uni_key, pool)
         self.sq = m["SqueethMarket"](self.sq_key, self.uni)
         self.broker.add_market(self.uni)
         self.broker.add_market(self.sq)
@@ -305,7 +309,7 @@ def geo_mean(xs):
 
 
 def lp_amounts(world_or_sqrt, lo, hi, liquidity):
-    """closed-form Uniswap v3 amounts (token0 = WETH, token1 = oSQTH) as exact fractions, in whole tokens"""
+    """closed-form Uniswap v3 amounts (token0, token1) as exact fractions, in whole tokens (both tokens have 18 decimals)"""
     from demeter.uniswap.liquitidy_math import get_sqrt_ratio_at_tick
     s = world_or_sqrt
     sa, sb = sorted((get_sqrt_ratio_at_tick(lo), get_sqrt_ratio_at_tick(hi)))
@@ -321,9 +325,10 @@ def lp_amounts(world_or_sqrt, lo, hi, liquidity):
     return a0 / 10 ** 18, a1 / 10 ** 18
 
 
-def pool_sqrt(uni_price):
+def pool_sqrt(uni_price, flip=False):
+    """sqrt price of the pool from the oSQTH price in WETH; token0 is WETH (quote) unless `flip`"""
     from demeter.uniswap.helper import base_unit_price_to_sqrt_price_x96
-    return base_unit_price_to_sqrt_price_x96(D(uni_price), 18, 18, True)
+    return base_unit_price_to_sqrt_price_x96(D(uni_price), 18, 18, not flip)
 
 
 class Spec:
@@ -332,13 +337,16 @@ class Spec:
     def __init__(self, state, env, twap_weth, twap_osqth, nf):
         self.s, self.env = state, env
         self.tw, self.to, self.nf = fr(twap_weth), fr(twap_osqth), fr(nf)
-        self.sqrt = pool_sqrt(env["uniPrice"])
+        self.flip = bool(env.get("flip", False))
+        self.sqrt = pool_sqrt(env["uniPrice"], self.flip)
         self.pos = {tuple(int(x) for x in k): p for k, p in state["positions"]}
 
     def lp_tokens(self, key):
+        """(WETH, oSQTH) held by the position incl. uncollected fees — by token, whichever of them is token0"""
         p = self.pos[tuple(key)]
         a0, a1 = lp_amounts(self.sqrt, int(key[0]), int(key[1]), int(p["liquidity"]))
-        return a0 + fr(p["p0"]), a1 + fr(p["p1"])
+        t0, t1 = a0 + fr(p["p0"]), a1 + fr(p["p1"])
+        return (t1, t0) if self.flip else (t0, t1)
 
     def eff_coll(self, v):
         c = fr(v["coll"])
@@ -421,11 +429,15 @@ class Runner:
         ctx = self.ctx
         answers = None
         if ctx.driver_ok and self.pending:
-            reqs = [model_req(o.before, o.envj, o.op) for o, _ in self.pending]
-            answers = driver_json(reqs, exe=self.exe)
+            # the model is written for the mainnet orientation (token0 = WETH): flipped worlds are oracle-only
+            idx = [i for i, (o, _) in enumerate(self.pending) if not o.env.get("flip")]
+            reqs = [model_req(self.pending[i][0].before, self.pending[i][0].envj, self.pending[i][0].op) for i in idx]
+            answers = dict(zip(idx, driver_json(reqs, exe=self.exe))) if reqs else {}
         for i, (o, pre) in enumerate(self.pending):
             cause = (o.err or "ok")
-            if answers is not None:
+            if o.env.get("flip"):
+                pre = "flip:" + pre
+            if answers is not None and i in answers:
                 a = answers[i]
                 d = compare_step(a, o.err, o.out, o.actions, o.after)
                 if d:
@@ -438,3 +450,104 @@ class Runner:
                      {"op": o.op, "outcome": cause, "env": o.env.get("kind", "")})
         ctx.impl_traces += len(self.pending)
         self.pending = []
+
+
+# -------------------------------------------------------------------------------------------- invalid-number arguments
+# Decimal NaN raises on ordering comparisons but not on == / arithmetic; float NaN compares false with everything.  Every amount slot of
+# every entry point is fed with numbers that are not ordinary finite numbers, and the state is looked at with predicates that cannot pass on NaN.
+SPECIALS = ["NaN", "-NaN", "sNaN", "Infinity", "-Infinity", "1E+400", "-1E+400", "-0", "1E-400", "float:nan", "float:inf", "float:-inf", "float:-0.0", "float:1e300"]
+SPECIAL_SLOTS = [("openMint", "deposit"), ("openMint", "mint"), ("openMint", "byRate"), ("deposit", "eth"), ("burnWithdraw", "burn"), ("burnWithdraw", "withdraw")]
+
+
+def real_arg(x):
+    if isinstance(x, str) and x.startswith("float:"):
+        return float(x[6:])
+    return D(x) if isinstance(x, str) else x
+
+
+def nonfinite_numbers(state):
+    bad = [f"wallet[{n}]" for n, b in state["wallet"] if not D(b).is_finite()]
+    for k, v in state["vaults"]:
+        bad += [f"vault {k}.{f}" for f in ("coll", "short") if not D(v[f]).is_finite()]
+    for k, p in state["positions"]:
+        bad += [f"position {k}.{f}" for f in ("p0", "p1") if not D(p[f]).is_finite()]
+    return bad
+
+
+def safe_state(state):
+    """NaN-safe canonical form: numbers by value where finite (so 3 and 3.0 agree), by text otherwise"""
+    n = lambda x: fr(x) if D(x).is_finite() else str(x)  # noqa: E731
+    return ([(k, n(b)) for k, b in state["wallet"]], int(state["maxId"]),
+            [(int(k), n(v["coll"]), n(v["short"]), v["nft"]) for k, v in state["vaults"]],
+            [([int(t) for t in k], int(p["liquidity"]), n(p["p0"]), n(p["p1"]), bool(p["transferred"])) for k, p in state["positions"]])
+
+
+def special_op(rng, state, slot, x):
+    kind, field = slot
+    vaults = [int(k) for k, _ in state["vaults"]]
+    vk = rng.choice(vaults) if vaults else None
+    if kind == "openMint":
+        op = {"k": "openMint", "deposit": D(str(round(rng.uniform(0.6, 4), 3))), "mint": D(str(round(rng.uniform(0, 2), 3))), "vk": vk if rng.random() < 0.5 else None, "pos": None}
+        if field == "byRate":
+            op["mint"] = D(0)
+        op[field] = x
+        return op
+    if vk is None:
+        return None
+    if kind == "deposit":
+        return {"k": "deposit", "vk": vk, "eth": x}
+    op = {"k": "burnWithdraw", "vk": vk, "burn": D(0), "withdraw": D(0)}
+    op[field] = x
+    return op
+
+
+def special_check(ctx, world, op, pfx="", reject_intact=False):
+    """run `op` (special arguments given as text, see SPECIALS) on the real objects; violations: a NaN / infinite number anywhere in wallet,
+    vaults or positions afterwards; [reject_intact] a raising call that changed the state or recorded actions"""
+    before = world.dump_state()
+    rop = {k: real_arg(v) if k in ("deposit", "mint", "byRate", "eth", "burn", "withdraw") else v for k, v in op.items()}
+    err, out, actions = world.apply_op(rop)
+    after = world.dump_state()
+    rep = {"spec": before, "env": dict(world.env), "op": op, "special": True}
+    bad = nonfinite_numbers(after)
+    if bad:
+        ctx.violate(f"{pfx}nonfinite-state:{op['k']}", f"{op['k']} {op} -> {err or 'ok'}: {', '.join(bad)} is no longer a finite number: {after['wallet']} {after['vaults']}"[:700], rep)
+    for vid, v in after["vaults"]:
+        if any(D(v[f]).is_finite() and D(v[f]) < 0 for f in ("coll", "short")):
+            ctx.violate(f"{pfx}negative.vault:{op['k']}:special", f"{op['k']} {op} leaves vault {vid} with coll {v['coll']}, short {v['short']}", rep)
+    if reject_intact and err is not None and (safe_state(before) != safe_state(after) or actions):
+        ctx.violate(f"{pfx}{op['k']}:{err}:special", f"{op['k']} {op} raised {err} but changed the state: {before['wallet']} {before['vaults']} -> {after['wallet']} {after['vaults']}, "
+                    f"actions {[a['k'] for a in actions]}"[:700], rep)
+    return err, bool(bad)
+
+
+def special_stream(ctx, n, pfx="", reject_intact=False):
+    import squeeth_gen as G
+    rng = ctx.rng
+    for i in range(n):
+        env = G.gen_env(rng)
+        world = World(G.empty_state(rng, with_osqth=rng.random() > 0.1), env)
+        for _ in range(rng.choice([0, 1, 2, 3])):          # a reachable state first
+            op, _ = G.gen_op(rng, world, world.dump_state())
+            if op["k"] in ("openMint", "deposit", "burnWithdraw"):
+                world.apply_op(op)
+        slot = SPECIAL_SLOTS[i % len(SPECIAL_SLOTS)]
+        x = rng.choice(SPECIALS)
+        op = special_op(rng, world.dump_state(), slot, x)
+        if op is None:
+            continue
+        err, bad = special_check(ctx, world, op, pfx, reject_intact)
+        ctx.impl_traces += 1
+        ctx.case(f"{'flip:' if env.get('flip') else ''}special:{slot[0]}.{slot[1]}:{x}:{err or 'ok'}{':NONFINITE' if bad else ''}", {"op": {k: str(v) for k, v in op.items()}, "outcome": err or "ok"})
+
+
+def special_replay(case, pfx="", reject_intact=False):
+    import squeeth_gen as G
+    from common import Ctx
+    world = World(G.parse_spec(case["spec"]), G.parse_env(case["env"]))
+    sub = Ctx("C14", "quick", 0, False)
+    err, _ = special_check(sub, world, case["op"], pfx, reject_intact)
+    print(f"   {case['op']} -> {err or 'ok'}")
+    for v in sub.violations:
+        print("  ", v["key"], "—", v["what"][:300])
+    return not sub.violations
